@@ -11,14 +11,14 @@ import (
 type Storage struct {
 	counterIncoming int64
 	counterOutgoing int64
-	messages        map[int]simplefixgo.SendingMessage
+	messages        map[fix.StorageID]map[int]simplefixgo.SendingMessage
 	mu              sync.Mutex
 }
 
 // NewStorage is a constructor for creation of a new in-memory Storage.
 func NewStorage() *Storage {
 	return &Storage{
-		messages: map[int]simplefixgo.SendingMessage{},
+		messages: map[fix.StorageID]map[int]simplefixgo.SendingMessage{},
 		mu:       sync.Mutex{},
 	}
 }
@@ -58,18 +58,23 @@ func (s *Storage) SetSeqNum(storageID fix.StorageID, seqNum int) error {
 }
 
 // Save saves a message with seq number to storage
-func (s *Storage) Save(_ fix.StorageID, msg simplefixgo.SendingMessage, msgSeqNum int) error {
+func (s *Storage) Save(storageID fix.StorageID, msg simplefixgo.SendingMessage, msgSeqNum int) error {
 	s.mu.Lock()
 	defer s.mu.Unlock()
-	s.messages[msgSeqNum] = msg
+	if s.messages[storageID] == nil {
+		s.messages[storageID] = map[int]simplefixgo.SendingMessage{}
+	}
+	s.messages[storageID][msgSeqNum] = msg
 	return nil
 }
 
 // Messages returns a message list, in a sequential order
 // (starting with msgSeqNumFrom and ending with msgSeqNumTo).
-func (s *Storage) Messages(_ fix.StorageID, msgSeqNumFrom, msgSeqNumTo int) ([]simplefixgo.SendingMessage, error) {
+func (s *Storage) Messages(storageID fix.StorageID, msgSeqNumFrom, msgSeqNumTo int) ([]simplefixgo.SendingMessage, error) {
 	s.mu.Lock()
 	defer s.mu.Unlock()
+
+	messages := s.messages[storageID]
 
 	if msgSeqNumFrom > msgSeqNumTo {
 		return nil, simplefixgo.ErrInvalidBoundaries
@@ -81,10 +86,10 @@ func (s *Storage) Messages(_ fix.StorageID, msgSeqNumFrom, msgSeqNumTo int) ([]s
 
 	var sendingMessages []simplefixgo.SendingMessage
 	for i := msgSeqNumFrom; i <= msgSeqNumTo; i++ {
-		if _, ok := s.messages[i]; !ok {
+		if _, ok := messages[i]; !ok {
 			return nil, simplefixgo.ErrNotEnoughMessages
 		}
-		sendingMessages = append(sendingMessages, s.messages[i])
+		sendingMessages = append(sendingMessages, messages[i])
 	}
 
 	return sendingMessages, nil
